@@ -512,6 +512,84 @@ func runC15(w *World, r *Report) {
 
 	shareRule(w, r, "C15.keyed-node-converter-is-the-maps", "a node with an input key takes its mapped fields as a map: forMapInput rebuilds the input-side slots for map[string]any instead of copying the wrapped component's", 4, "C04", "C04.in-out-wiring")
 
+	r.Rule("C15.destination-walk-instantiates", "on the destination side a field promoted through an embedded pointer is reachable: the function checkAndExtractToField resolves the target field with instantiates nil pointers on the way (reflect.New + Set), like instantiateIfNeeded does for named pointer fields — the destination is always a fresh value, so an erroring lookup there fails on every run of a mapping Compile accepted; and the deferred declarations of a WorkflowNode keep their own copy of the caller's mapping list", 2)
+	{
+		toField := w.Fn("compose", "checkAndExtractToField")
+		var resolver *ssa.Function
+		instrs(toField, func(in ssa.Instruction) {
+			c, ok := in.(*ssa.Call)
+			if !ok {
+				return
+			}
+			sc := staticCallee(c)
+			if sc == nil || !w.inRepo(sc) || len(c.Call.Args) != 2 {
+				return
+			}
+			if isReflectValue(c.Call.Args[0].Type()) {
+				if b, ok := c.Call.Args[1].Type().Underlying().(*types.Basic); ok && b.Kind() == types.String {
+					resolver = sc
+				}
+			}
+		})
+		if resolver == nil {
+			undecidedf("C15.destination-walk-instantiates: checkAndExtractToField calls no (reflect.Value, string) resolver of the module")
+		}
+		news, sets := false, false
+		instrs(resolver, func(in ssa.Instruction) {
+			switch calleeFullName(in) {
+			case "reflect.New":
+				news = true
+			case "(reflect.Value).Set":
+				sets = true
+			}
+		})
+		r.Check(news && sets, "C15.destination-walk-instantiates", "checkAndExtractToField resolves the target through "+resolver.Name(), resolver.Pos(), "the resolver instantiates nil embedded pointers (reflect.New, Set)", "the destination field is looked up with the source side's helper, for which a nil embedded pointer is an error of the request: a target field promoted through an embedded POINTER (struct{ *Base; H string }, target \"F\") is accepted by Compile and fails on every run, for every input ('field mapping through an embedded pointer that is nil') — the destination is a fresh value whose embedded pointer is always nil; the spelled-out path Base.F works")
+		// the deferred closures of addDependencyRelation capture their own copy of the mapping list
+		adr := w.Fn("compose", "WorkflowNode.addDependencyRelation")
+		var inP *ssa.Parameter
+		for _, p := range adr.Params {
+			if sl, ok := p.Type().Underlying().(*types.Slice); ok {
+				if pt, ok := sl.Elem().(*types.Pointer); ok && namedOf(pt.Elem()) == w.Named("compose", "FieldMapping") {
+					inP = p
+				}
+			}
+		}
+		if inP == nil {
+			undecidedf("C15.destination-walk-instantiates: addDependencyRelation has no []*FieldMapping parameter")
+		}
+		nc, bad := 0, 0
+		instrs(adr, func(in ssa.Instruction) {
+			mc, ok := in.(*ssa.MakeClosure)
+			if !ok {
+				return
+			}
+			for _, b := range mc.Bindings {
+				v := b
+				if al, ok := b.(*ssa.Alloc); ok {
+					for _, ref := range *al.Referrers() {
+						if st, ok := ref.(*ssa.Store); ok && st.Addr == ssa.Value(al) {
+							v = st.Val
+							if v == ssa.Value(inP) {
+								break
+							}
+						}
+					}
+				}
+				if _, isSl := v.Type().Underlying().(*types.Slice); !isSl {
+					continue
+				}
+				nc++
+				if v == ssa.Value(inP) {
+					bad++
+				}
+			}
+		})
+		r.Check(nc > 0 && bad == 0, "C15.destination-walk-instantiates", "addDependencyRelation: deferred declarations own their mapping list", adr.Pos(), fmt.Sprintf("%d captured lists, none is the caller's slice itself", nc), fmt.Sprintf("%d of %d closures kept for Compile capture the caller's []*FieldMapping as it is: a caller that reuses the slice for the next declaration (buf[0] = MapFields(\"B\",\"Y\")) rewrites the earlier one — node n1, declared with A -> X, runs with B -> Y", bad, nc))
+	}
+
+	r.Rule("C15.static-values-checked", "what Compile can know about a static value it checks: the path exists in the node's input type and the value is assignable to what is found there (shared with C07)", 1)
+	staticValuesTypeChecked(w, r, "C15.static-values-checked")
+
 	r.Rule("C15.source-field-readable", "checkAndExtractFromField returns a field value only under CanInterface() == true", 1)
 	{
 		f := w.Fn("compose", "checkAndExtractFromField")
